@@ -662,9 +662,43 @@ func cmdNumFile(path string) {
 // ---------------------------------------------------------------- float-like types: direct search
 
 // F <family> <literal> <verdict> [details]; verdict: rt-ok | rt-FAIL | imp-err | exp-err
+// valueFromPattern builds a typed value directly from a bit pattern (ImportBytes + CastType), so that
+// the round trip starts from *every* representable value and not only from what ImportString can
+// produce.  lit = pat:<type name>:<bits>:<hex of the pattern, big endian>
+func valueFromPattern(lit string) (*bmnumbers.BMNumber, string) {
+	f := strings.Split(lit, ":")
+	if len(f) != 4 {
+		return nil, "bad-pattern"
+	}
+	bits, err := strconv.Atoi(f[2])
+	be, err2 := hex.DecodeString(f[3])
+	if err != nil || err2 != nil || bits < 1 || len(be) != (bits-1)/8+1 {
+		return nil, "bad-pattern"
+	}
+	bmnumbers.EventuallyCreateType(f[1], nil)
+	t := bmnumbers.GetType(f[1])
+	if t == nil {
+		return nil, "no-type"
+	}
+	n, err := bmnumbers.ImportBytes(be, bits)
+	if err != nil || n == nil {
+		return nil, "err"
+	}
+	if err := bmnumbers.CastType(n, t); err != nil {
+		return nil, "cast-err"
+	}
+	return n, "ok"
+}
+
 func floatCase(family, lit string) {
 	res := common.Guard(func() string {
-		n, st := importG(lit)
+		var n *bmnumbers.BMNumber
+		var st string
+		if strings.HasPrefix(lit, "pat:") {
+			n, st = valueFromPattern(lit)
+		} else {
+			n, st = importG(lit)
+		}
 		if n == nil {
 			return "imp-" + st
 		}
@@ -702,6 +736,100 @@ func setLQRanges() {
 				(*lq.Ranges)[k] = bmnumbers.LinearDataRange{Max: v}
 			}
 		}
+	}
+}
+
+func patLit(name string, bits int, v uint64) string {
+	nb := (bits-1)/8 + 1
+	if bits < 64 {
+		v &= (uint64(1) << uint(bits)) - 1
+	}
+	be := make([]byte, nb)
+	for i := 0; i < nb; i++ {
+		be[nb-1-i] = byte(v >> (8 * uint(i)))
+	}
+	return fmt.Sprintf("pat:%s:%d:%s", name, bits, hex.EncodeToString(be))
+}
+
+// bit patterns that use all significant bits of an s-bit word
+func widePatterns(rng *common.Rng, s int, sweep bool) []uint64 {
+	all := ^uint64(0)
+	ps := []uint64{all, 0x5555555555555555, 0xAAAAAAAAAAAAAAAA, (uint64(1) << uint(s-1)) - 1, uint64(1) << uint(s-1),
+		(uint64(1) << uint(s-1)) + 1, rng.Next(), rng.Next() | 1, 0x123456789ABCDEF1 >> uint(64-s), 0, 1}
+	if sweep {
+		for k := 1; k < s; k++ {
+			ps = append(ps, (uint64(1)<<uint(k))-1, (uint64(1)<<uint(k))+1, all<<uint(k))
+		}
+	}
+	return ps
+}
+
+// pattern-first round trips: fixed point and FXP at every format s in 1..32, f in 0..s (plus a few
+// larger f), float16/float32 over raw bit patterns, linear quantiser over bands
+func patternCases(rng *common.Rng, n int) {
+	for s := 1; s <= 32; s++ {
+		for f := 0; f <= s; f++ {
+			sweep := f == 0 || f == s-1 || f == s/2 || (s*33+f)%7 == int(common.Seed()%7)
+			for _, fam := range []string{"fps", "fxps"} {
+				name := fmt.Sprintf("%ss%df%d", strings.TrimSuffix(fam, "s"), s, f)
+				ps := widePatterns(rng, s, sweep && s >= 12)
+				if !sweep { // keep the quick tier small: 5 patterns on the ordinary formats
+					ps = []uint64{ps[0], ps[1+rng.Intn(2)], ps[3+rng.Intn(3)], ps[6], ps[8]}
+				}
+				for _, p := range ps {
+					floatCase(fam, patLit(name, s, p))
+				}
+			}
+		}
+	}
+	for i := 0; i < 40; i++ { // fractional part wider than the word
+		s := 1 + rng.Intn(32)
+		f := s + 1 + rng.Intn(62-s)
+		for _, p := range widePatterns(rng, s, false)[:8] {
+			floatCase("fps", patLit(fmt.Sprintf("fps%df%d", s, f), s, p))
+			floatCase("fxps", patLit(fmt.Sprintf("fxps%df%d", s, f), s, p))
+		}
+	}
+	isNaN32 := func(b uint32) bool { return b&0x7f800000 == 0x7f800000 && b&0x007fffff != 0 }
+	isNaN16 := func(b uint16) bool { return b&0x7c00 == 0x7c00 && b&0x03ff != 0 }
+	for i := 0; i < n/3; i++ {
+		b := uint32(rng.Next())
+		switch rng.Intn(6) {
+		case 0:
+			b &= 0x807fffff // denormals
+		case 1:
+			b = b&0x80000000 | 0x7f7fffff - uint32(rng.Intn(4)) // largest
+		case 2:
+			b = b&0x807fffff | uint32(1+rng.Intn(40))<<23 // tiny normals
+		}
+		if !isNaN32(b) { // NaN payloads are not representable in the text form: only the canonical NaN
+			floatCase("float32", patLit("float32", 32, uint64(b)))
+		}
+		h := uint16(rng.Next())
+		if rng.Chance(1, 4) {
+			h &= 0x83ff
+		}
+		if !isNaN16(h) {
+			floatCase("float16", patLit("float16", 16, uint64(h)))
+		}
+	}
+	for _, b := range []uint32{0, 0x80000000, 1, 0x007fffff, 0x00800000, 0x7f7fffff, 0xff7fffff, 0x7f800000, 0xff800000, 0x7fc00000,
+		0x3f800001, 0x3f7fffff, 0x4b7fffff, 0x4b800001} {
+		floatCase("float32", patLit("float32", 32, uint64(b)))
+	}
+	for h := 0; h < 1<<16; h += 1 + int(common.Seed()%3) + 36 { // a stride through all float16 patterns
+		if !isNaN16(uint16(h)) {
+			floatCase("float16", patLit("float16", 16, uint64(h)))
+		}
+	}
+	for i := 0; i < n/6; i++ { // linear quantiser bands (-(2^(s-1)) is not a band)
+		s := 1 + rng.Intn(32)
+		t := 1 + rng.Intn(5)
+		p := widePatterns(rng, s, false)[rng.Intn(9)]
+		if s < 64 && p&((uint64(1)<<uint(s))-1) == uint64(1)<<uint(s-1) {
+			continue
+		}
+		floatCase("lqs", patLit(fmt.Sprintf("lqs%dt%d", s, t), s, p))
 	}
 }
 
@@ -782,6 +910,7 @@ func cmdFloats(n int) {
 			floatCase("lqs", "0lq<"+strconv.Itoa(s)+"."+strconv.Itoa(t)+">"+strconv.FormatFloat(v, 'f', -1, 64))
 		}
 	}
+	patternCases(rng, n)
 }
 
 func main() {
